@@ -14,13 +14,17 @@ type StructMeta struct {
 }
 
 func (s StructMeta) Reduce(ctx ReductionContext) (definitions.StructMetadata, error) {
-	reducedFields := make([]definitions.FieldMetadata, len(s.Fields))
-	for idx, field := range s.Fields {
+	reducedFields := make([]definitions.FieldMetadata, 0, len(s.Fields))
+	for _, field := range s.Fields {
+		if !field.IsEmbedded && !field.IsJsonVisible() {
+			// encoding/json never emits unexported fields nor fields tagged `json:"-"`
+			continue
+		}
 		reduced, err := field.Reduce(ctx)
 		if err != nil {
 			return definitions.StructMetadata{}, fmt.Errorf("failed to reduce field '%s' - %v", field.Name, err)
 		}
-		reducedFields[idx] = reduced
+		reducedFields = append(reducedFields, reduced)
 	}
 
 	return definitions.StructMetadata{
